@@ -355,9 +355,8 @@ namespace smt
         }
         else if (l0.vars.size() == 1 && l1.vars.size() == 1)
         {
-            const auto [lb, ub] = distance(l0.vars.cbegin()->first, l1.vars.cbegin()->first);
-            const auto kt = l0.known_term - l1.known_term;
-            return lb + kt <= 0 && ub + kt >= 0;
+            const auto [lb, ub] = bounds(l0 - l1); // the expressions can be equal iff zero is within the bounds of their difference..
+            return lb <= 0 && ub >= 0;
         }
         else
             throw std::invalid_argument("not a valid comparison between real difference logic expressions..");
